@@ -4,8 +4,8 @@
    real C++ on every check (see prop.py). *)
 From Coq Require Import ZArith List Bool Permutation.
 From MomoCommon Require Import GenPrelude.
-From C08 Require Gen_GrowCapacity Gen_ArrayBucket Gen_ArrayBucket_cnt Gen_ArrayBucket_s.
-From C08 Require Import ArrayBucketModel GenRefine MultiMapModel WrapperModel Examples.
+From C08 Require Gen_GrowCapacity Gen_ArrayBucket Gen_ArrayBucket_cnt Gen_ArrayBucket_s Gen_HashMultiMap.
+From C08 Require Import ArrayBucketModel GenRefine MultiMapModel WrapperModel VersionModel Examples.
 Import ListNotations.
 Local Open Scope Z_scope.
 
@@ -400,3 +400,95 @@ Theorem C08_arraybucket_content_every_member :
   end.
 Proof. exact ab2_content. Qed.
 Print Assumptions C08_arraybucket_content_every_member.
+
+(* ------------------------------------------------------------------ grow round 2: FRAME at HashMultiMap level, one step *)
+(* EVERY public mutating member of HashMultiMap (each is an op of `step`: Add* / AddCrt / AddVar / Add(range) / InsertKey /
+   AddKeyCrt / Remove x3 / RemoveValues / RemoveKey x2 / ResetKey / Clear / Swap / copy / move / both operator=) keeps, for
+   both containers: keys distinct, mValueCount = sum of the per-key counts, every value array legal.  (The all-histories
+   form is C08_mm_refines_all_histories; value-less keys staying until RemoveKey / Clear is C08_key_persists_...) *)
+Theorem C08_mm_frame_every_member :
+  forall (M : Z) (s : st) (o : op), 0 < M < 16 -> Inv M (fst s) /\ Inv M (snd s) ->
+  Inv M (fst (step M s o)) /\ Inv M (snd (step M s o)).
+Proof. exact step_inv. Qed.
+Print Assumptions C08_mm_frame_every_member.
+
+(* ------------------------------------------------------------------ grow round 2: value-version counter and moved-from state *)
+(* if a call leaves valueVersion unchanged then no value array was touched: every present key keeps exactly its array
+   (representation and content), a new key has the null array, the pair traversal is the same -- so an iterator that
+   passes VersionKeeper::Check still designates the same pair *)
+Theorem C08_version_guards_values :
+  forall (M : Z) (m : mm) (o : op), NoDup (keys (fst m)) -> ver_delta M m o = 0 ->
+  (forall k e, find k (fst m) = Some e -> exists e', find k (fst (step1 M m o)) = Some e' /\ earr e' = earr e) /\
+  (forall k e', find k (fst (step1 M m o)) = Some e' -> find k (fst m) = None -> earr e' = ab_null) /\
+  all_pairs (fst (step1 M m o)) = all_pairs (fst m).
+Proof. exact version_guards_values. Qed.
+Print Assumptions C08_version_guards_values.
+
+(* the counter never decreases and every call that changes the traversal increases it *)
+Theorem C08_version_monotone_and_sound :
+  forall (M : Z) (m : mm) (o : op), 0 < M < 16 -> Inv M m ->
+  0 <= ver_delta M m o /\ (all_pairs (fst (step1 M m o)) <> all_pairs (fst m) -> 0 < ver_delta M m o).
+Proof. exact version_monotone_and_sound. Qed.
+Print Assumptions C08_version_monotone_and_sound.
+
+(* a moved-from container (null crew): Clear and every other call leave it as it is; no values, no keys, empty traversal *)
+Theorem C08_moved_from_container_is_inert :
+  forall (M : Z) (o : op),
+  vstep1 M vmm_dead o = vmm_dead /\ get_count (fst vmm_dead) = 0 /\ get_key_count (fst vmm_dead) = 0 /\
+  traverse (fst vmm_dead) = [].
+Proof. exact dead_container_is_inert. Qed.
+Print Assumptions C08_moved_from_container_is_inert.
+
+(* all histories with moves, Clear on the moved-from container and re-creation: container invariant for both, versions
+   non-negative, a dead container is exactly the inert moved-from state *)
+Theorem C08_versions_all_histories :
+  forall (M : Z) (ops : list vop), 0 < M < 16 -> VInv M (fst (vrun M ops)) /\ VInv M (snd (vrun M ops)).
+Proof. exact versions_all_histories. Qed.
+Print Assumptions C08_versions_all_histories.
+
+(* ------------------------------------------------------------------ grow round 2: generated HashMultiMap arithmetic *)
+(* the REAL Remove(ConstIterator) (regenerated from HashMultiMap.h; calls into the value array / key table skipped):
+   mValueCount - 1, valueVersion + 1, and the iterator it returns is pvMakeIterator(key, the SAME valueIndex, move = TRUE) *)
+Theorem C08_gen_remove_returns_moved_iterator_at_same_index :
+  forall (null : bool) (cnt ver ri : Z) (rm : bool) (idx : Z), no_wrap (cnt - 1) -> no_wrap ver ->
+  Gen_HashMultiMap.Remove_iter cnt ver ri rm idx = (cnt - 1, ver + 1, idx, true).
+Proof. exact gen_remove_iter. Qed.
+Print Assumptions C08_gen_remove_returns_moved_iterator_at_same_index.
+
+Theorem C08_gen_add_value :
+  forall (cnt ver ri : Z) (rm : bool), no_wrap cnt -> no_wrap ver ->
+  Gen_HashMultiMap.pvAddValue cnt ver ri rm = (cnt + 1, ver + 1).
+Proof. exact gen_add_value. Qed.
+Print Assumptions C08_gen_add_value.
+
+Theorem C08_gen_remove_values :
+  forall (cnt ver ri : Z) (rm : bool) (count : Z), 0 <= count <= cnt -> no_wrap cnt -> no_wrap ver ->
+  Gen_HashMultiMap.pvRemoveValues cnt ver ri rm count = (cnt - count, ver + 1).
+Proof. exact gen_remove_values. Qed.
+Print Assumptions C08_gen_remove_values.
+
+(* the REAL Clear: nothing at all on a moved-from container (null crew), else count 0 and version + 1 *)
+Theorem C08_gen_clear :
+  forall (null : bool) (cnt ver ri : Z) (rm : bool), no_wrap ver ->
+  Gen_HashMultiMap.Clear null cnt ver ri rm = if null then (cnt, ver) else (0, ver + 1).
+Proof. exact gen_clear. Qed.
+Print Assumptions C08_gen_clear.
+
+(* the hand model's mValueCount / valueVersion bookkeeping (and the index / move flag of the iterator Remove returns) IS
+   the generated code, for Add, Remove, RemoveValues, RemoveKey and Clear on any live container satisfying the invariant *)
+Theorem C08_model_counts_via_generated :
+  forall (M : Z) (c : vmm), vlive c = true -> no_wrap (snd (fst c)) -> no_wrap (vver c) -> Inv M (fst c) ->
+  let m := fst c in
+  (forall k t v, (snd (fst (vstep1 M c (OAdd k t v))), vver (vstep1 M c (OAdd k t v))) =
+                 Gen_HashMultiMap.pvAddValue (snd m) (vver c) 0 false) /\
+  (forall k i e, find k (fst m) = Some e -> (i < length (evals e))%nat ->
+     (snd (fst (vstep1 M c (ORemove k i))), vver (vstep1 M c (ORemove k i)), Z.of_nat i, true) =
+     Gen_HashMultiMap.Remove_iter (snd m) (vver c) 0 false (Z.of_nat i)) /\
+  (forall k e, find k (fst m) = Some e ->
+     (snd (fst (vstep1 M c (ORemoveValues k))), vver (vstep1 M c (ORemoveValues k))) =
+     Gen_HashMultiMap.pvRemoveValues (snd m) (vver c) 0 false (elen e) /\
+     (snd (fst (vstep1 M c (ORemoveKey k))), vver (vstep1 M c (ORemoveKey k))) =
+     Gen_HashMultiMap.pvRemoveValues (snd m) (vver c) 0 false (elen e)) /\
+  (snd (fst (vstep1 M c OClear)), vver (vstep1 M c OClear)) = Gen_HashMultiMap.Clear false (snd m) (vver c) 0 false.
+Proof. exact model_counts_via_generated. Qed.
+Print Assumptions C08_model_counts_via_generated.
